@@ -192,7 +192,9 @@ func (p *rawPlugin) Synchronize(ctx context.Context, req *api.SynchronizeRequest
 	return &api.SynchronizeResponse{More: req.More}, nil
 }
 
-func (p *rawPlugin) Shutdown(context.Context, *api.Empty) (*api.Empty, error) { return &api.Empty{}, nil }
+func (p *rawPlugin) Shutdown(context.Context, *api.Empty) (*api.Empty, error) {
+	return &api.Empty{}, nil
+}
 
 func (p *rawPlugin) CreateContainer(context.Context, *api.CreateContainerRequest) (*api.CreateContainerResponse, error) {
 	p.event(api.Event_CREATE_CONTAINER)
